@@ -148,6 +148,24 @@ fn script(lines: &[String]) {
                 register_infix_op(&s, p, InfixOpType::CALC, assoc, Arc::new(move |a, b| Ok(Value::List(vec![Value::from(tag.as_str()), a, b]))));
                 "{\"ok\":true}".to_string()
             }
+            "rtreg" => {
+                // parse, THEN register an infix operator, then render and re-parse: expr() and the parser must use the same (current) table (C12, C08)
+                let op = field(l, "op").unwrap_or_default();
+                let tag = field(l, "tag").unwrap_or_default();
+                let p: i32 = field(l, "p").and_then(|x| x.parse().ok()).unwrap_or(100);
+                let assoc = if field(l, "assoc").unwrap_or_default() == "R" { InfixOpAssociativity::RIGHT } else { InfixOpAssociativity::LEFT };
+                match parse_expression(&s) {
+                    Ok(a) => {
+                        register_infix_op(&op, p, InfixOpType::CALC, assoc, Arc::new(move |x, y| Ok(Value::List(vec![Value::from(tag.as_str()), x, y]))));
+                        let e1 = a.expr();
+                        match parse_expression(&e1) {
+                            Ok(b) => format!("{{\"ok\":true,\"ast\":{},\"expr\":{},\"ok2\":true,\"ast2\":{}}}", esc(&format!("{:?}", a)), esc(&e1), esc(&format!("{:?}", b))),
+                            Err(e) => format!("{{\"ok\":true,\"ast\":{},\"expr\":{},\"ok2\":false,\"err2\":{}}}", esc(&format!("{:?}", a)), esc(&e1), esc(&format!("{}", e))),
+                        }
+                    }
+                    Err(e) => format!("{{\"ok\":false,\"err\":{}}}", esc(&format!("{}", e))),
+                }
+            }
             _ => run_case(l),
         });
         let txt = match res { Ok(t) => t, Err(_) => "{\"panic\":true}".to_string() };
